@@ -15,7 +15,8 @@ typedef struct _ev_priv evt_priv_t;
 
 /* Struct that holds fds to self_t mapping for poll plugin */
 typedef struct {
-    int fd;
+    int fd;                                 // the descriptor that gets polled (a private duplicate with M_SRC_DUP)
+    int key;                                // the descriptor the source was registered with: identifies the source
 } fd_src_t;
 
 /* Struct that holds timers to self_t mapping for poll plugin */
